@@ -166,7 +166,7 @@ class Device(object):
             if not s.dev_closed:
                 s.dev_closed = True
                 s.out.clear()
-                self.enqueue(s.q, Packet(b'CLSE', s.remote, s.local))
+                self.enqueue(s.q, Packet(b'CLSE', s.remote, s.local), self.cfg.get('clse_reply_delay') or 0.0)     # a device that is slow to confirm a close
             del self.streams[s.remote]
         elif c == b'SYNC':
             pass
@@ -349,7 +349,12 @@ class SyncSession(object):
         cfg = self.dev.cfg
         cut = cfg.get(cut_key) or cfg.get('cut')
         size = min(self.dev.host_maxdata or MAXDATA, MAXDATA)
-        self.s.out.extend(cut_blob(bytes(blob), cut, size))
+        pieces = cut_blob(bytes(blob), cut, size)
+        ea = cfg.get('empty_wrte_at')           # a zero-length WRTE in front of piece k of the reply (legal: the protocol bounds payloads only from above)
+        if ea is not None:
+            pieces = list(pieces)
+            pieces.insert(min(ea, len(pieces)), b'')
+        self.s.out.extend(pieces)
         self.dev.pump(self.s)
 
     def end(self):
@@ -457,7 +462,14 @@ class SyncSession(object):
             return True
         fs = self.dev.fs
         if sid == b'LIST':
-            blob = b''.join(frames.sync_dent(m, sz, mt, nm) for (nm, m, sz, mt) in fs.dirs.get(arg, []))
+            ents = fs.dirs.get(arg, [])
+            ss = cfg.get('sync_stalls')        # {'op': LIST|STAT|RECV, 'after': k}: the service stops answering after k records; the stream stays alive
+            if ss and ss['op'] == 'LIST':
+                blob = b''.join(frames.sync_dent(m, sz, mt, nm) for (nm, m, sz, mt) in ents[:ss['after']])
+                if blob:
+                    self.reply(blob)
+                return True
+            blob = b''.join(frames.sync_dent(m, sz, mt, nm) for (nm, m, sz, mt) in ents)
             blob += frames.u32(frames.S[b'DONE']) + frames.u32(0) * 4
             self.reply(blob)
         elif sid == b'STAT':
@@ -468,6 +480,11 @@ class SyncSession(object):
                 m, sz, mt = f.get('mode', 0o100644), len(f['data']), f.get('mtime', 0)
             else:
                 m, sz, mt = 0, 0, 0
+            ss = cfg.get('sync_stalls')
+            if ss and ss['op'] == 'STAT':
+                if ss['after']:
+                    self.reply(frames.sync_stat(m, sz, mt)[:8])        # half a record, then nothing
+                return True
             self.reply(frames.sync_stat(m, sz, mt))
         elif sid == b'RECV':
             f = cfg.get('fail')
@@ -507,6 +524,17 @@ class SyncSession(object):
                 blob += frames.sync_req(b'FAIL', f.get('reason', b'fail'))
             else:
                 blob += frames.u32(frames.S[b'DONE']) + frames.u32(0)
+            ss = cfg.get('sync_stalls')
+            if ss and ss['op'] == 'RECV':
+                k = ss['after']
+                cutoff, i = 0, 0
+                for nn in (sizes + [step] * (k + 1))[:k]:
+                    cutoff += 8 + min(nn, max(0, len(data) - i))
+                    i += nn
+                blob = blob[:cutoff]
+                if blob:
+                    self.reply(bytes(blob))
+                return True
             self.reply(bytes(blob))
         elif sid == b'SEND':
             path, _, mode = arg.rpartition(b',')
